@@ -1661,18 +1661,37 @@ Section Oracle.
       unc_size (l2_e _ s1) = 0 /\ rc_full (l2_e _ s1) = false /\
       (read_ahead (l2_e _ s1) = read_ahead (l2_e _ s) \/ read_ahead (l2_e _ s1) = -1) /\
       sum_fill (l2_tr _ s1) = sum_fill (l2_tr _ s) /\
-      sum_chunk (l2_tr _ s) < sum_chunk (l2_tr _ s1) /\ l2_pending _ s1 < l2_pending _ s).
+      sum_chunk (l2_tr _ s) < sum_chunk (l2_tr _ s1) /\ l2_pending _ s1 < l2_pending _ s /\
+      (forall T, 1 <= logical_pos (l2_e _ s) -> loop2_cond (l2_e _ s) = false \/ T <= logical_pos (l2_e _ s) ->
+         exists ev, istep2 p T (est2 (l2_e _ s) (l2_ps _ s)) = Some (est2 (l2_e _ s1) (l2_ps _ s1), ev) /\
+                    rsyms (l2_tr _ s1) = ev :: rsyms (l2_tr _ s))).
   Proof.
     intros W HH L Hunc. pose proof W as [W1 W2 W3 W4 W5 W6 W7 W8 W9 W10].
     pose proof L as [Lp Ln I Lpend Lunc Lbig Lcnn].
     pose proof I as [[[Ha Hb] Hc [Hd He] [Hf Hg] Hpb] [Hr1 Hr2] Hmb [Hb1 Hb2] Hh Hdict Hpx Hu HU Hfill Hsym Hchunk Horg].
     pose proof (l2_pending_cap p org s L) as Hpc.
     unfold write_chunk. rewrite Lp.
-    destruct (chunkc (l2_ps PS s) (unc_size (l2_e PS s))) as [c ps1].
-    destruct (Z.ltb_spec c 1); [cbn [orb okor]; right; reflexivity|].
-    destruct (Z.ltb_spec COMPRESSED_SIZE_MAX (c + 2)); [cbn [orb okor]; right; reflexivity|].
-    destruct (Bool.eqb (rc_full (l2_e PS s)) (LZMA2_COMPRESSED_LIMIT <? c)); [|cbn [orb negb okor]; right; reflexivity].
+    destruct (chunkc (l2_ps PS s) (unc_size (l2_e PS s))) as [c ps1] eqn:Ech.
+    destruct (Z.ltb_spec c 1) as [?|Hc1]; [cbn [orb okor]; right; reflexivity|].
+    destruct (Z.ltb_spec COMPRESSED_SIZE_MAX (c + 2)) as [?|Hc2]; [cbn [orb okor]; right; reflexivity|].
+    destruct (Bool.eqb (rc_full (l2_e PS s)) (LZMA2_COMPRESSED_LIMIT <? c)) eqn:Hc3; [|cbn [orb negb okor]; right; reflexivity].
     cbn [orb negb].
+    (* the data-only machine takes the same chunk step *)
+    assert (Hich : forall T, 1 <= logical_pos (l2_e _ s) -> loop2_cond (l2_e _ s) = false \/ T <= logical_pos (l2_e _ s) ->
+              istep2 p T (est2 (l2_e _ s) (l2_ps _ s)) = ichunk (est2 (l2_e _ s) (l2_ps _ s))).
+    { intros T HP Hcase. unfold istep2, est2.
+      destruct (Z.eqb_spec (logical_pos (l2_e PS s)) 0); [lia|].
+      fold (loop2_cond (l2_e PS s)). destruct (loop2_cond (l2_e PS s)); [|reflexivity].
+      destruct Hcase as [Hcf|HT]; [discriminate|].
+      destruct (Z.ltb_spec (logical_pos (l2_e PS s)) T); [lia|].
+      destruct (Z.leb_spec 1 (unc_size (l2_e PS s))); [reflexivity|lia]. }
+    assert (Hichv : ichunk (est2 (l2_e _ s) (l2_ps _ s)) =
+              if c + 2 <? unc_size (l2_e _ s)
+              then Some ((logical_pos (l2_e _ s), read_ahead (l2_e _ s), ps1, 0, false), ILzma (unc_size (l2_e _ s)) c)
+              else Some ((logical_pos (l2_e _ s) + (read_ahead (l2_e _ s) + 1), -1, ps1, 0, false), IUnc (unc_size (l2_e _ s) + (read_ahead (l2_e _ s) + 1)))).
+    { unfold ichunk, est2. rewrite Ech.
+      destruct (Z.ltb_spec c 1); [lia|]. destruct (Z.ltb_spec COMPRESSED_SIZE_MAX (c + 2)); [lia|].
+      rewrite Hc3. reflexivity. }
     destruct (Z.ltb_spec (unc_size (l2_e PS s)) 1); [lia|].
     set (e := l2_e PS s) in *. set (tr := l2_tr PS s) in *.
     destruct (Z.ltb_spec (c + 2) (unc_size e)) as [Hlz|Hfb].
@@ -1686,6 +1705,9 @@ Section Oracle.
         constructor; unfold pidx, logical_pos in *; cbn [e_lz read_ahead unc_size g_base rc_full sum_fill sum_sym sum_abs sum_chunk];
           try assumption; try lia; try (split; assumption); try exact (ei_lz _ _ _ _ I). }
       repeat split; try reflexivity; try lia; try (left; reflexivity).
+      intros T HP Hcase. exists (ILzma (unc_size e) c). rewrite (Hich T HP Hcase), Hichv.
+      destruct (Z.ltb_spec (c + 2) (unc_size e)); [|lia].
+      split; [unfold est2, logical_pos; cbn [e_lz read_ahead g_base unc_size rc_full l2_e l2_ps]; reflexivity|reflexivity].
     - (* uncompressed fallback *)
       unfold enc_reset.
       rewrite ck_i32_ok by (unfold I32_MIN, I32_MAX in *; lia). cbn [obind].
@@ -1718,6 +1740,12 @@ Section Oracle.
         - intros Hp0. destruct (HU Hp0) as [K|[[K1 K2]|K]]; [left; exact K| |right; right; exact K].
           right; left. split; [reflexivity|exact K2]. }
       repeat split; try reflexivity; try lia; try (right; reflexivity).
+      intros T HP Hcase. exists (IUnc (unc_size e + (read_ahead e + 1))). rewrite (Hich T HP Hcase), Hichv.
+      destruct (Z.ltb_spec (c + 2) (unc_size e)); [lia|].
+      split; [|rewrite E5; reflexivity].
+      unfold est2, logical_pos. cbn [e_lz read_ahead g_base unc_size rc_full l2_e l2_ps].
+      replace (g_base e + read_pos (e_lz e) - read_ahead e + (read_ahead e + 1)) with (g_base e + read_pos (e_lz e) - -1) by lia.
+      reflexivity.
   Qed.
 
 
@@ -1751,7 +1779,10 @@ Section Oracle.
       read_limit (e_lz (l2_e _ s1)) = read_limit (e_lz (l2_e _ s)) /\
       finishing (e_lz (l2_e _ s1)) = finishing (e_lz (l2_e _ s)) /\
       g_base (l2_e _ s1) = g_base (l2_e _ s) /\
-      sum_fill (l2_tr _ s1) = sum_fill (l2_tr _ s)).
+      sum_fill (l2_tr _ s1) = sum_fill (l2_tr _ s) /\
+      (forall T acc, finishing (e_lz (l2_e _ s)) = true -> g_base (l2_e _ s) + write_pos (e_lz (l2_e _ s)) = T ->
+         exists n L, isteps2 p T n (est2 (l2_e _ s) (l2_ps _ s)) acc = Some (est2 (l2_e _ s1) (l2_ps _ s1), L ++ acc) /\
+                     rsyms (l2_tr _ s1) = L ++ rsyms (l2_tr _ s))).
   Proof.
     intros W HH. induction fuel as [|f IH]; intros s L Hub Hc Hrl Hfuel.
     - exfalso. pose proof (l2_pending_cap p org s L) as Hpc. pose proof (l2i_e _ _ _ L) as I.
@@ -1764,10 +1795,11 @@ Section Oracle.
       destruct (Z.leb_spec (l2_pending PS s) 0) as [Hz|Hpos].
       { cbn [okor]. unfold loop2_cond in Hc. apply andb_true_iff in Hc as [_ Hc2]. apply negb_true_iff in Hc2.
         unfold pidx in *.
-        split; [exact L|]. repeat split; try lia; try assumption. }
+        split; [exact L|]. repeat split; try lia; try assumption.
+        intros T acc _ _. exists O, []. split; reflexivity. }
       rewrite Lp.
       eapply okor_bind; [apply (encode_for_lzma2_spec p org (l2_ps _ s) (l2_e _ s) (l2_tr _ s) W I Hub)|].
-      intros [[[b e1] ps1] tr1] (I1 & U1 & B1 & Y1 & Y1' & Y2 & Y3 & Y4 & Y5 & Y6 & Y9 & Y10 & Y11 & Y8 & YA).
+      intros [[[b e1] ps1] tr1] (I1 & U1 & B1 & Y1 & Y1' & Y2 & Y3 & Y4 & Y5 & Y6 & Y9 & Y10 & Y11 & Y8 & YA & YI).
       assert (Hu1 : 1 <= unc_size e1).
       { destruct (Z_le_dec 1 (unc_size (l2_e _ s))) as [Hge|Hlt]; [lia|].
         assert (NQ : ~ quiet (l2_e _ s)) by (unfold quiet, pidx in *; lia).
@@ -1778,8 +1810,8 @@ Section Oracle.
       assert (L' : l2inv p org s').
       { constructor; unfold s'; cbn [l2_p l2_new l2_e l2_tr l2_pending l2_unc]; try assumption; try reflexivity; try lia. }
       eapply okor_bind; [apply (write_chunk_spec p org s' W HH L'); unfold s'; cbn [l2_e]; lia|].
-      intros s2 (L2 & C2 & E2 & G2 & Un2 & Rc2 & Ra2 & F2 & Ch2 & P2).
-      unfold s' in *. cbn [l2_e l2_tr l2_pending l2_chunk] in *.
+      intros s2 (L2 & C2 & E2 & G2 & Un2 & Rc2 & Ra2 & F2 & Ch2 & P2 & ZC).
+      unfold s' in *. cbn [l2_e l2_tr l2_pending l2_chunk l2_ps] in *.
       eapply okor_weaken.
       { apply (IH s2 L2).
         - rewrite Un2. unfold UNC_BOUND, SYM_MAX, LZMA2_UNCOMPRESSED_LIMIT. pose proof (wf_ea p W). lia.
@@ -1789,8 +1821,21 @@ Section Oracle.
       intros s3 (L3 & P3 & C3 & X).
       split; [exact L3|]. split; [exact P3|]. split; [congruence|].
       rewrite E2, G2 in X.
-      destruct X as (X1 & X2 & X3 & X4 & X5 & X6 & X7 & X8 & X9).
-      repeat split; try assumption; try congruence; try lia.
+      destruct X as (X1 & X2 & X3 & X4 & X5 & X6 & X7 & X8 & X9 & XI).
+      repeat (split; [first [assumption|congruence|lia]|]).
+      intros T acc Hfin HT.
+      assert (HV : Vc p (l2_e PS s) T) by (unfold Vc; left; split; assumption).
+      destruct (YI T acc HV) as (n1 & L1 & En1 & Er1).
+      assert (HP1 : 1 <= logical_pos e1).
+      { pose proof (ei_org _ _ _ _ I1). rewrite logical_pidx. lia. }
+      assert (Hcase : loop2_cond e1 = false \/ T <= logical_pos e1).
+      { destruct b; [left; exact B1|right]. unfold quiet in B1. rewrite Y3, Hrl in B1. rewrite logical_pidx. lia. }
+      destruct (ZC T HP1 Hcase) as (ev & Est & Erc).
+      destruct (XI T (ev :: L1 ++ acc)) as (n3 & L3' & En3 & Er3); [congruence|lia|].
+      exists (n1 + S n3)%nat, (L3' ++ ev :: L1). split.
+      { eapply isteps2_app; [exact En1|]. cbn [isteps2]. rewrite Est.
+        rewrite <- app_assoc. cbn [app]. exact En3. }
+      rewrite Er3, Erc, Er1, <- app_assoc. reflexivity.
   Qed.
 
 
